@@ -8,7 +8,7 @@ RULE = ('one sequence operator (first/last/take/distinct/distinct_until_changed/
         'batch; sort on plain observables) x item sequences of length 0..13 with repeated values, None items '
         '(incl. leading None), lengths that are / are not multiples of n, n = 0, 1, > len; run per key on a mux '
         'trace with 1-3 interleaved keys and reused slots, and on a plain observable where the operator accepts '
-        'one. non-trivial = sequence of >= 2 items; distinct = distinct case JSON')
+        'one; a scale family with parameters and lengths of 257 and more (up to ~2000 items per key). non-trivial = sequence of >= 2 items; distinct = distinct case JSON')
 TRUSTED = ['modelled not verified: Python sorted() stability, ==/hash, RxPY first/last/take/to_list on plain observables']
 ASSUMPTIONS = ['items are ints / None; key mappers are total']
 SHARD = 200
@@ -61,6 +61,19 @@ def generate(rng, tier):
         nk = 1 if op[0] == 'sort' else rng.choice([1, 1, 2, 3])
         seqs = [gen_seq(rng, op) for _ in range(nk * rng.choice([1, 1, 2]))]
         cases.append({'op': op, 'seqs': seqs, 'order': rng.random()})
+    for _ in range({'quick': 16, 'thorough': 400, 'search': 4}[tier]):
+        # scale: parameters and sequence lengths beyond small-int / buffer / type-width thresholds (257+, 300, 1000+)
+        big = rng.choice([257, 258, 300, 512, 1000])
+        op = rng.choice([['take', big], ['lag', big], ['lag', rng.choice([129, 200])], ['batch', big], ['batch', rng.choice([128, 255, 256])],
+                         ['pad_start', big, enc(77)], ['pad_end', big, enc(None)], ['distinct', None], ['duc', None],
+                         ['first'], ['last'], ['start_with', [enc(i) for i in range(big)]]])
+        nk = rng.choice([1, 2])
+        seqs = []
+        for _k in range(nk):
+            n = rng.choice([big - 1, big, big + 1, 2 * big, 2 * big + 7, 40])
+            m = rng.choice([3, 300, 100000])
+            seqs.append([enc((i * 7 + _k) % m) for i in range(n)])
+        cases.append({'op': op, 'seqs': seqs, 'order': rng.random(), 'scale': True})
     return cases
 
 
